@@ -14,6 +14,7 @@ EndOfStream otherwise - never the other way round; with a flipped bit: never wro
 from __future__ import annotations
 
 import copy
+import logging
 import os
 import random
 import ssl
@@ -23,7 +24,37 @@ from simkit.harness import History, LoopConfig, SimRun, anyio
 from anyio import (BrokenResourceError, ClosedResourceError, EndOfStream, Event, create_task_group,
                    get_cancelled_exc_class, move_on_after, sleep)
 from anyio.abc import ByteStream
-from anyio.streams.tls import TLSStream
+from anyio.streams.tls import TLSConnectable, TLSListener, TLSStream
+
+logging.getLogger("anyio.streams.tls").addHandler(logging.NullHandler())
+logging.getLogger("anyio.streams.tls").propagate = False       # TLSListener logs failed handshakes; they are injected here
+
+
+class _OneShotConnectable:
+    """Stands in for a ByteStreamConnectable: connect() returns the prepared wire end."""
+
+    def __init__(self, end):
+        self.end = end
+
+    async def connect(self):
+        return self.end
+
+
+class _OneShotListener:
+    """Stands in for a Listener that accepts exactly one connection: the prepared wire end."""
+
+    def __init__(self, end):
+        self.end = end
+
+    async def serve(self, handler, task_group=None):
+        await handler(self.end)
+
+    async def aclose(self):
+        pass
+
+    @property
+    def extra_attributes(self):
+        return {}
 
 FIX = os.path.join(os.path.dirname(os.path.dirname(os.path.abspath(__file__))), "fixtures")
 _CTX = {}
@@ -181,7 +212,8 @@ def gen_case(seed, tier, prop="C17"):
             "delays": {"c2s": [rng.choice([0, 0, 0.125]) for _ in range(3)], "s2c": [rng.choice([0, 0, 0.125]) for _ in range(3)]},
             "cut": cut, "flip": flip, "eager": rng.random() < 0.2, "sched_seed": rng.getrandbits(32),
             # the writer stays idle (no close, no further send) until the peer has read everything it was sent
-            "wait_ack": rng.random() < 0.5}
+            "wait_ack": rng.random() < 0.5,
+            "via": {"client": rng.choice(["wrap", "wrap", "connectable"]), "server": rng.choice(["wrap", "wrap", "listener"])}}
 
 
 def payload(direction, sizes):
@@ -270,8 +302,32 @@ class TLSRun:
             res[direction] = {"got": bytes(got), "end": end}
 
         async def side(name, end_, wrap_kw, out_dir, in_dir, first_closer):
+            # three creation paths: TLSStream.wrap(), TLSConnectable.connect() (client), TLSListener.serve() (server)
+            via = c.get("via", {}).get(name, "wrap")
+            if via == "listener":
+                called = []
+
+                async def handler(stream):
+                    called.append(1)
+                    await after_wrap(name, end_, stream, out_dir, in_dir, first_closer)
+                try:
+                    await TLSListener(_OneShotListener(end_), wrap_kw["ssl_context"], standard_compatible=std,
+                                      handshake_timeout=1e6).serve(handler)      # (1-byte fragments with delays: hours of virtual time)
+                except Cancelled:
+                    raise
+                except BaseException as e:
+                    res[name + "_wrap"] = type(e).__name__
+                if not called:
+                    res.setdefault(name + "_wrap", "handshake failed inside TLSListener")
+                    got_all[in_dir].set()
+                    await end_.aclose()
+                return
             try:
-                stream = await TLSStream.wrap(end_, standard_compatible=std, **wrap_kw)
+                if via == "connectable":
+                    stream = await TLSConnectable(_OneShotConnectable(end_), hostname=wrap_kw["hostname"],
+                                                  ssl_context=wrap_kw["ssl_context"], standard_compatible=std).connect()
+                else:
+                    stream = await TLSStream.wrap(end_, standard_compatible=std, **wrap_kw)
             except Cancelled:
                 raise
             except BaseException as e:
@@ -279,6 +335,9 @@ class TLSRun:
                 got_all[in_dir].set()       # nobody will ever read that direction
                 await end_.aclose()
                 return
+            await after_wrap(name, end_, stream, out_dir, in_dir, first_closer)
+
+        async def after_wrap(name, end_, stream, out_dir, in_dir, first_closer):
             if record:
                 self.h.rec("handshake", name)
             duplex = c["duplex"]
